@@ -485,18 +485,71 @@ func c01Smux(w *World, r *Report) {
 			// the configuration object(s): the argument itself and, when a builder helper returns it, the
 			// DefaultConfig() result inside that helper
 			cfgVals := map[ssa.Value]bool{cfg: true}
-			for _, root := range provInter(cfg, 0) {
-				if dc, ok := root.(*ssa.Call); ok {
-					if df := sCallee(dc); df != nil && df.Pkg() != nil && df.Pkg().Path() == "github.com/xtaci/smux" && df.Name() == "DefaultConfig" {
-						fromDefault = true
-						cfgVals[dc] = true
+			var tracePtr func(p ssa.Value, d int)
+			var traceStruct func(sv ssa.Value, d int)
+			other := false
+			tracePtr = func(p ssa.Value, d int) {
+				if d > 6 {
+					other = true
+					return
+				}
+				for _, root := range provInter(p, 0) {
+					if dc, ok := root.(*ssa.Call); ok {
+						if df := sCallee(dc); df != nil && df.Pkg() != nil && df.Pkg().Path() == "github.com/xtaci/smux" && df.Name() == "DefaultConfig" {
+							fromDefault = true
+							cfgVals[dc] = true
+							continue
+						}
+					}
+					if isConstNil(root) {
+						fromDefault = true // smux uses DefaultConfig for nil
 						continue
 					}
+					// a local copy: `settings := *smux.DefaultConfig()` (or the struct a builder returns), passed by address
+					if al, ok := root.(*ssa.Alloc); ok && al.Referrers() != nil {
+						if _, isStruct := al.Type().(*types.Pointer).Elem().Underlying().(*types.Struct); isStruct {
+							cfgVals[al] = true
+							whole := 0
+							for _, ref := range *al.Referrers() {
+								if st, ok := ref.(*ssa.Store); ok && st.Addr == ssa.Value(al) {
+									whole++
+									traceStruct(st.Val, d+1)
+								}
+							}
+							if whole == 0 {
+								other = true // built field by field from the zero value
+							}
+							continue
+						}
+					}
+					other = true
 				}
-				if isConstNil(root) {
-					fromDefault = true // smux uses DefaultConfig for nil
-					continue
+			}
+			traceStruct = func(sv ssa.Value, d int) {
+				switch x := sv.(type) {
+				case *ssa.UnOp:
+					if x.Op == token.MUL {
+						tracePtr(x.X, d+1)
+						return
+					}
+				case *ssa.Call:
+					if g := x.Call.StaticCallee(); g != nil && inModule(g) && len(g.Blocks) > 0 {
+						nret := 0
+						allInstrs(g, func(in ssa.Instruction) {
+							if ret, ok := in.(*ssa.Return); ok && len(ret.Results) > 0 {
+								nret++
+								traceStruct(ret.Results[0], d+1)
+							}
+						})
+						if nret > 0 {
+							return
+						}
+					}
 				}
+				other = true
+			}
+			tracePtr(cfg, 0)
+			if other {
 				bad = "the smux configuration does not start from smux.DefaultConfig()"
 			}
 			if !fromDefault && bad == "" {
